@@ -20,27 +20,28 @@ Proof.
 Qed.
 
 Lemma parse2_digits : forall a b, 48 <= a <= 57 -> 48 <= b <= 57 ->
-  parse2 a b = Some ((a - 48) * 10 + (b - 48)).
+  parse2 a b = (a - 48) * 10 + (b - 48).
 Proof.
   intros a b Ha Hb. unfold parse2, schar.
   assert (A : (a <? 128) = true) by (apply Z.ltb_lt; lia).
   assert (B : (b <? 128) = true) by (apply Z.ltb_lt; lia).
-  rewrite A, B.
-  assert (C : (a - 48 <? 0) = false) by (apply Z.ltb_ge; lia). rewrite C. reflexivity.
+  rewrite A, B. lia.
 Qed.
 
 Lemma hms_time : forall s v, hms s = Some v ->
-  get_time_field (Some s) = TP_val v /\ 0 <= v < 400000 * billion.
+  get_time_field (Some s) = v /\ 0 <= v < 400000 * billion.
 Proof.
   intros s v H.
   destruct s as [|h0 [|h1 [|c1 [|m0 [|m1 [|c2 [|s0 [|s1 [|z r]]]]]]]]]; try discriminate H.
   unfold hms in H.
   destruct (digit h0 && digit h1 && digit m0 && digit m1 && digit s0 && digit s1 && (c1 =? 58) && (c2 =? 58)) eqn:E;
     [|discriminate H].
-  repeat (apply andb_true_iff in E; destruct E as [E ?]).
-  repeat match goal with H : digit _ = true |- _ => apply digit_prop in H end.
+  apply andb_true_iff in E. destruct E as [E C2]. apply andb_true_iff in E. destruct E as [E C1].
+  apply andb_true_iff in E. destruct E as [E D6]. apply andb_true_iff in E. destruct E as [E D5].
+  apply andb_true_iff in E. destruct E as [E D4]. apply andb_true_iff in E. destruct E as [E D3].
+  apply andb_true_iff in E. destruct E as [D1 D2].
+  apply digit_prop in D1, D2, D3, D4, D5, D6.
   injection H as <-.
-  assert (Hh0 : 48 <= h0 <= 57) by (apply Z.leb_le in E; apply Z.leb_le in H7; lia).
   unfold get_time_field. rewrite !parse2_digits by assumption.
   set (X := ((h0 - 48) * 10 + (h1 - 48)) * 3600 + ((m0 - 48) * 10 + (m1 - 48)) * 60 + ((s0 - 48) * 10 + (s1 - 48))).
   assert (HX : 0 <= X < 400000) by (unfold X; lia).
@@ -48,16 +49,25 @@ Proof.
   rewrite (Z.mod_small X) by lia.
   rewrite (Z.mod_small (X * 1000000000)) by lia.
   rewrite (Z.mod_small (X * 1000000000 + 9223372036854775808)) by lia.
-  split; [f_equal; lia | lia].
+  split; lia.
 Qed.
 
-Lemma create_schedule_ok : forall x,
-  c24_ok_cfg (x_start x) (x_end x) (x_utc x) (x_dur x) (x_sd x) (x_ed x) (observe (create_schedule x)) = true.
+Definition denotes (d : denotation) (r : cfg_result) : Prop :=
+  match d with
+  | D_unjudged => True
+  | D_invalid => r = R_invalid
+  | D_rejected => r = R_rejected
+  | D_sched st en utc sd ed => r = R_sched st en utc sd ed
+  end.
+
+(* whenever the attributes are well formed the configured schedule is the denoted one *)
+Lemma create_schedule_denotes : forall x,
+  denotes (denote (x_start x) (x_end x) (x_utc x) (x_dur x) (x_sd x) (x_ed x)) (observe (create_schedule x)).
 Proof.
-  intro x. unfold c24_ok_cfg.
+  intro x. unfold denote.
   set (dur := match x_dur x with Some d => d | None => 0 end).
   set (utc := match x_utc x with Some u => u | None => 0 end).
-  destruct ((0 <=? dur) && (dur <? 100000000)) eqn:Hd; cbn [negb]; [|reflexivity].
+  destruct ((0 <=? dur) && (dur <? 100000000)) eqn:Hd; cbn [negb]; [|exact I].
   apply andb_true_iff in Hd. destruct Hd as [D1 D2]. apply Z.leb_le in D1. apply Z.ltb_lt in D2.
   assert (SD : (match x_sd x with Some s => decode_dow s | None => -1 end)
                = (match x_sd x with Some s => spec_dow s | None => -1 end))
@@ -73,34 +83,92 @@ Proof.
   assert (DM : dur mod W32 = dur) by (apply Z.mod_small; unfold W32; lia). rewrite DM.
   destruct (x_start x) as [ss|].
   2:{ reflexivity. }
-  destruct (hms ss) as [st|] eqn:Hs; [|reflexivity].
+  destruct (hms ss) as [st|] eqn:Hs; [|exact I].
   apply hms_time in Hs. destruct Hs as [Gs Rs]. rewrite Gs.
   assert (NE : (st =? errorticks) = false)
     by (apply Z.eqb_neq; unfold errorticks, W63, billion in *; lia).
-  rewrite NE.
+  cbv zeta. rewrite NE.
   destruct (x_end x) as [es|].
-  - destruct (hms es) as [e|] eqn:He; [|reflexivity].
+  - destruct (hms es) as [e|] eqn:He; [|exact I].
     apply hms_time in He. destruct He as [Ge Re]. rewrite Ge.
     assert (NE2 : (e =? errorticks) = false)
       by (apply Z.eqb_neq; unfold errorticks, W63, billion in *; lia).
     rewrite NE2.
     destruct (Z.leb_spec e st) as [L|L].
     + reflexivity.
-    + cbn [observe s_start s_end s_utc s_sd s_ed]. unfold observe_end. rewrite NE2.
-      rewrite !Z.eqb_refl. cbn [andb].
-      apply Z.ltb_lt in L. rewrite L. reflexivity.
-  - change (get_time_field None) with (TP_val errorticks). cbv iota beta. rewrite Z.eqb_refl.
+    + cbn [denotes observe s_start s_end s_utc s_sd s_ed]. unfold observe_end. rewrite NE2. reflexivity.
+  - change (get_time_field None) with errorticks. rewrite Z.eqb_refl.
     destruct (Z.eqb_spec dur 0) as [Z0|NZ]; cbn [negb].
-    + cbn [observe s_start s_end s_utc s_sd s_ed]. unfold observe_end. rewrite Z.eqb_refl.
-      rewrite !Z.eqb_refl. reflexivity.
+    + cbn [denotes observe s_start s_end s_utc s_sd s_ed]. unfold observe_end. rewrite Z.eqb_refl. reflexivity.
     + assert (F : fits64 (dur * minute) = true).
       { unfold fits64, minute, second, billion, W63.
         apply andb_true_iff. split; [apply Z.leb_le | apply Z.ltb_lt]; lia. }
       rewrite F.
       rewrite add64_ok by (unfold minute, second, billion, W63 in *; lia).
-      cbn [observe s_start s_end s_utc s_sd s_ed]. unfold observe_end.
+      cbn [denotes observe s_start s_end s_utc s_sd s_ed]. unfold observe_end.
       assert (NE3 : (st + dur * minute =? errorticks) = false)
         by (apply Z.eqb_neq; unfold errorticks, minute, second, billion, W63 in *; lia).
-      rewrite NE3. rewrite !Z.eqb_refl. cbn [andb].
-      reflexivity.
+      rewrite NE3. rewrite minute_val. reflexivity.
+Qed.
+
+Lemma opt_eqb_refl : forall o, opt_eqb o o = true.
+Proof. destruct o; [apply Z.eqb_refl | reflexivity]. Qed.
+
+Lemma create_schedule_ok : forall x,
+  c24_ok_cfg (x_start x) (x_end x) (x_utc x) (x_dur x) (x_sd x) (x_ed x) (observe (create_schedule x)) = true.
+Proof.
+  intro x. pose proof (create_schedule_denotes x) as H. unfold c24_ok_cfg.
+  destruct (denote (x_start x) (x_end x) (x_utc x) (x_dur x) (x_sd x) (x_ed x)); cbn [denotes] in H.
+  - reflexivity.
+  - rewrite H. reflexivity.
+  - rewrite H. reflexivity.
+  - rewrite H. rewrite !Z.eqb_refl, opt_eqb_refl. reflexivity.
+Qed.
+
+(* ================================================================== configured and polled *)
+Definition observe_run (r : cr_result) : cfgrun_result :=
+  match r with
+  | CR_ub => W_crash
+  | CR_invalid => W_invalid
+  | CR_error => W_rejected
+  | CR_bits l => W_bits l
+  end.
+
+(* a daily schedule configured from well-formed attributes, polled at arbitrary instants with any
+   initial flag, passes the oracle of the configured path *)
+Lemma configured_daily_ok : forall x prev ts st e utc sd ed,
+  denote (x_start x) (x_end x) (x_utc x) (x_dur x) (x_sd x) (x_ed x) = D_sched st (Some e) utc sd ed ->
+  sd < 0 -> e < T62 -> fits64 (utc * minute) = true ->
+  forallb (fun t => (0 <=? local utc t) && (local utc t <? T62)) ts = true ->
+  c24_ok_cfgrun (x_start x) (x_end x) (x_utc x) (x_dur x) (x_sd x) (x_ed x) ts
+                (observe_run (configured_run x prev ts)) = true.
+Proof.
+  intros x prev ts st e utc sd ed D Hsd He Hf Hi.
+  pose proof (create_schedule_denotes x) as H. rewrite D in H. cbn [denotes] in H.
+  unfold c24_ok_cfgrun. rewrite D. unfold configured_run.
+  destruct (create_schedule x) as [| | |c]; try discriminate H.
+  cbn [observe] in H. injection H as H1 H2 H3 H4 H5.
+  assert (E : s_end c = e).
+  { unfold observe_end in H2. destruct (s_end c =? errorticks); [discriminate H2 | injection H2 as H2; exact H2]. }
+  assert (St : 0 <= st < 400000 * billion /\ st < e).
+  { unfold denote in D.
+    set (dur := match x_dur x with Some d => d | None => 0 end) in *.
+    destruct ((0 <=? dur) && (dur <? 100000000)) eqn:Rg; cbn [negb] in D; [|discriminate D].
+    apply andb_true_iff in Rg. destruct Rg as [R1 _]. apply Z.leb_le in R1.
+    destruct (x_start x) as [ss|]; [|discriminate D].
+    destruct (hms ss) as [st0|] eqn:Hs; [|discriminate D].
+    apply hms_time in Hs. destruct Hs as [_ Rs].
+    destruct (x_end x) as [es|].
+    - destruct (hms es) as [e0|]; [|discriminate D].
+      destruct (Z.leb_spec e0 st0); [discriminate D|]. injection D as <- <- _ _ _. lia.
+    - injection D as <- De _ _ _.
+      destruct (Z.eqb_spec dur 0) as [Z0|Z0]; [discriminate De|].
+      injection De as <-. split; [exact Rs|]. unfold ns_minute. lia. }
+  assert (R : ranges_okb c = true).
+  { unfold ranges_okb, toffset. rewrite H1, H3, E. rewrite Hf. cbn [andb].
+    destruct St as [[S1 S2] S3]. unfold T62, billion in *.
+    repeat (apply andb_true_iff; split); try (apply Z.leb_le; lia); try (apply Z.ltb_lt; lia). }
+  assert (I : instants_okb c ts = true) by (unfold instants_okb; rewrite H3; exact Hi).
+  rewrite (run_o_daily c ts prev R I) by lia.
+  cbn [observe_run]. rewrite H1, H3, H4, H5, E. apply ok_run_of_exact.
 Qed.
